@@ -192,6 +192,22 @@ func genC14(e *emitter, r *rng, tier string) {
 		}
 		b.emit(e, "C14.patterns")
 	}
+	// the pattern as the DIGIT SOURCE sees it while a search is in progress (fresh finite
+	// generator-backed Number per statement, so that the search itself drives the source)
+	for i := 0; i < n; i++ {
+		L := r.pick([]int{40, 150, 260})
+		st := r.intn(L - 6)
+		p := []int{genDigit(st), genDigit(st + 1), genDigit(st + 2), genDigit(st + 3)}
+		if p[0] == p[3] && p[1] == p[2] {
+			p = p[:3]
+		}
+		ps := patString(p)
+		op := r.pickS([]string{"fl:0:%s", "fln:0:%s:2", "findr:0:%s:2", "fa:0:%s", "ff:0:%s", "ffn:0:%s:2", "find:0:%s:2", "bm:0:%s:2", "m:0:%s:2"})
+		for v := 1; v <= 3; v++ {
+			emitScriptLine(e, v, fmt.Sprintf("G:%d:1:0", L), fmt.Sprintf(op, ps))
+		}
+		e.count("C14.pattern_seen_by_the_source")
+	}
 }
 
 func init() {
